@@ -768,6 +768,7 @@ func tsdCase(c *core.Ctx, r *rand.Rand) {
 			encoding.ReleaseTSDDecoder(dec)
 		}
 	}()
+	unarmedDecoderHistory(c, r)
 	// warm-up, so that what the pools hold at the start of the case does not depend on earlier
 	// cases: one encoder that was used for 3 slots and one decoder that failed on a truncated block
 	// are released; the first Get of the case will (normally) return exactly these objects.
